@@ -149,22 +149,35 @@ def check(repo: Repo, run: Run) -> None:
             run.inconclusive("C15.J2", "adapter.json_to_cel", f"kind {kind}: {got}")
             continue
         run.ob("C15.J2", f"json_to_cel({kind})", got == [want], f"json_to_cel({kind}) builds {got}; reference {want}", ad.loc(j2c))
-    # recursion in the container arms
-    src = ast.unparse(j2c)
-    list_arm = [n for n in ast.walk(j2c) if isinstance(n, ast.Call) and (dotted(n.func) or "").endswith("ListType")]
-    ok = any(any(isinstance(c, ast.Call) and dotted(c.func) == "json_to_cel" for c in ast.walk(a)) for n in list_arm for a in n.args)
-    run.ob("C15.J2", "json_to_cel|list recursion", ok, "array elements are converted recursively", ad.loc(j2c))
-    map_arm = [n for n in ast.walk(j2c) if isinstance(n, ast.Call) and (dotted(n.func) or "").endswith("MapType")]
-    okm = False
-    for n in map_arm:
-        for a in n.args:
-            for c in ast.walk(a):
-                if isinstance(c, ast.DictComp):
-                    k_ok = any(isinstance(x, ast.Call) and dotted(x.func) == "json_to_cel" for x in ast.walk(c.key))
-                    v_ok = any(isinstance(x, ast.Call) and dotted(x.func) == "json_to_cel" for x in ast.walk(c.value))
-                    items = ".items()" in ast.unparse(c.generators[0].iter)
-                    okm = k_ok and v_ok and items
-    run.ob("C15.J2", "json_to_cel|object recursion", okm, "object keys and values are both converted recursively", ad.loc(j2c))
+    # recursion in the container arms: some loop / comprehension over the document converts every element (and, for
+    # objects, every key and value) through json_to_cel
+    def converts_all(fn: ast.FunctionDef, param: str, conv: str, need: int, items: bool) -> bool:
+        for n in ast.walk(fn):
+            gens, scope = [], []
+            if isinstance(n, (ast.ListComp, ast.SetComp, ast.GeneratorExp, ast.DictComp)):
+                gens, scope = [(g.target, g.iter) for g in n.generators], [n]
+            elif isinstance(n, ast.For):
+                gens, scope = [(n.target, n.iter)], list(n.body)
+            for target, it in gens:
+                txt = ast.unparse(it)
+                if param not in txt or (items and ".items()" not in txt):
+                    continue
+                names = [x.id for x in ast.walk(target) if isinstance(x, ast.Name)]
+                if len(names) != need:
+                    continue
+                converted = {strip_cast(c.args[0]).id for sc in scope for c in ast.walk(sc)
+                             if isinstance(c, ast.Call) and (dotted(c.func) or "").split(".")[-1] == conv and c.args and isinstance(strip_cast(c.args[0]), ast.Name)}
+                if set(names) <= converted:
+                    return True
+        return False
+
+    j2c_n = ad.func_n("json_to_cel")
+    for label, need, items, what in (("list recursion", 1, False, "array elements are converted recursively"), ("object recursion", 2, True, "object keys and values are both converted recursively")):
+        ok = converts_all(j2c_n, param, "json_to_cel", need, items)
+        if ok:
+            run.ob("C15.J2", f"json_to_cel|{label}", True, what, ad.loc(j2c))
+        else:
+            run.inconclusive("C15.J2", f"json_to_cel|{label}", "no loop over the container that converts every element through json_to_cel was recognised")
     # J3 -----------------------------------------------------------------
     # path-based: which returning path does a value of class C take, and what does that path return
     from ..core.model import deref
@@ -182,6 +195,8 @@ def check(repo: Repo, run: Run) -> None:
                 out.append((dotted(e) or "?").split(".")[-1])
         return out
 
+    CEL_CLASSES = {n.name for n in repo.mod("celtypes").tree.body if isinstance(n, ast.ClassDef)} | {"bool", "int", "float", "str", "list", "dict", "bytes", "List", "Dict"}
+
     def path_for(fn: ast.FunctionDef, param: str, cname: str):
         """The returning paths a value whose class is exactly ``cname`` follows (isinstance literals decided
         through the repository's class hierarchy; other literals leave the path possible)."""
@@ -189,12 +204,20 @@ def check(repo: Repo, run: Run) -> None:
         out = []
         for pth in PathWalker(ad, enc).paths(fn):
             feasible = True
+            certain = True
             for t, pol in flat_conds(pth.conds):
                 if isinstance(t, ast.Call) and dotted(t.func) == "isinstance" and len(t.args) == 2 and ast.unparse(strip_cast(t.args[0])) == param:
-                    holds = bool(anc & set(classes_of(t.args[1], fn)))
+                    known = set(classes_of(t.args[1], fn))
+                    if "?" in known or any(k not in ANCESTORS and k not in CEL_CLASSES for k in known):
+                        certain = False  # a class tuple that could not be resolved (loop variable, table entry)
+                        continue
+                    holds = bool(anc & known)
                     if holds != pol:
                         feasible = False
+                else:
+                    certain = False  # some other condition (a loop, a size test): the path is only possibly taken
             if feasible:
+                pth.certain = certain  # type: ignore[attr-defined]
                 out.append(pth)
         return out
 
@@ -294,7 +317,11 @@ def check(repo: Repo, run: Run) -> None:
             if want == "str":
                 return isinstance(v, ast.Call) and dotted(v.func) == "str" and len(v.args) == 1 and ast.unparse(strip_cast(v.args[0])) == dparam
             return "b64encode(" in txt and dparam in txt and ".decode(" in txt
-        bad = [ast.unparse(p.value)[:50] for p in rets if not good(p.value)]
+        bad = [ast.unparse(p.value)[:50] for p in rets if not good(p.value) and getattr(p, "certain", True)]
+        maybe = [ast.unparse(p.value)[:50] for p in rets if not good(p.value) and not getattr(p, "certain", True)]
+        if not bad and maybe and not any(good(p.value) and getattr(p, "certain", True) for p in rets):
+            run.inconclusive("C15.J3", f"default|{cname}", f"the path a {cname} takes through default() could not be determined (dispatch through a table or loop)")
+            continue
         run.ob("C15.J3", f"default|{cname}", not bad,
                f"default() encodes {cname} " + (("as str(value)" if want == "str" else "as base64 text") if not bad else f"as `{bad[0]}`; expected " + ("str(value)" if want == "str" else "base64.b64encode(value).decode(..)")), ad.loc(df))
     dec = class_methods(ad.cls("CELJSONDecoder")).get("decode")
